@@ -243,6 +243,10 @@ func c19Run(c *Ctx) {
 		{"runtime-stray-break", Break()},
 		{"runtime-stray-return", Ret("1")},
 		{"runtime-in-loop", For(Var("li", "0"), "li < 3", "li = li + 1", "{ "+Print("li")+" "+Print("1 % 0")+" }")},
+		{"runtime-redeclare-nil", VarNil("nv") + " " + Var("nv", "5")},
+		{"runtime-redeclare-nil-assigned", Var("nv2", "1") + " nv2 = nil; " + Var("nv2", "5")},
+		{"runtime-redeclare-from-nothing", Fun("nothing", "", "") + " " + Var("nv3", "nothing()") + " " + Var("nv3", "1")},
+		{"runtime-index-write-nil-high", Var("arr", "[1]") + " arr[3] = nil;"},
 		{"syntax-missing-operand", Print("1 +")},
 		{"syntax-stray-paren", ")"},
 		{"syntax-unclosed-block", "{"},
@@ -289,7 +293,7 @@ func c19Run(c *Ctx) {
 		}
 	}
 	// error position: first / middle / last line of a longer program
-	for _, t := range tails[1:30] {
+	for _, t := range tails[1:34] {
 		for _, pos := range []int{0, 5, 10} {
 			var b []string
 			for i := 0; i < 11; i++ {
@@ -301,6 +305,15 @@ func c19Run(c *Ctx) {
 			}
 			if c.Mine() {
 				c19Judge(c, &Case{Gen: "error-position", Src: Lines(b...), Stdin: "a\nb\n", X: map[string]string{"tail": t.name}})
+			}
+		}
+	}
+	// how the script text ends (no final newline, comment as the very last bytes, blanks, CR)
+	for _, body := range []string{Print("1"), Lines(Print(`"a"`), Print("1 / 0")), Lines(Print(`"a"`), "@"), "", Lines(Var("x", BI("input")), Print("x"))} {
+		for _, end := range []string{"", "/* done */", " /**/", "// done", "//", "\n/* multi\nline */", "\r\n", "\t ", "\n\n/* a */ /* b */"} {
+			src := strings.TrimSuffix(body, "\n") + end
+			if c.Mine() {
+				c19Judge(c, &Case{Gen: "text-endings", Src: src, Stdin: "typed\n"})
 			}
 		}
 	}
@@ -335,7 +348,7 @@ func init() {
 		Run:         c19Run,
 		Judge:       c19Judge,
 		MustCount: func(c *Ctx) []string {
-			return []string{"argv:usage64", "argv:unreadable", "argv:runs", "argv:repl-empty", "class:clean", "class:runtime-error", "class:static-error", "input_calls:4", "hook_stdin_reads", "gen:input-corner-cases"}
+			return []string{"argv:usage64", "argv:unreadable", "argv:runs", "argv:repl-empty", "class:clean", "class:runtime-error", "class:static-error", "input_calls:4", "hook_stdin_reads", "gen:input-corner-cases", "gen:text-endings"}
 		},
 	})
 }
